@@ -1888,7 +1888,9 @@ def p_itemgetter(I, n, pos, kw):
 
 @prim("operator.attrgetter")
 def p_attrgetter(I, n, pos, kw):
-    return ObjV(None, dict(k=pos[0].s if isinstance(pos[0], StrV) else None), tag="attrgetter")
+    if len(pos) > 1 and all(isinstance(x, StrV) for x in pos):
+        return ObjV(None, dict(k=None, ks=[x.s for x in pos]), tag="attrgetter")
+    return ObjV(None, dict(k=pos[0].s if pos and isinstance(pos[0], StrV) else None), tag="attrgetter")
 
 
 @prim("copy.deepcopy", "copy.copy")
@@ -1939,9 +1941,23 @@ def p_pad(I, n, pos, kw):
         if before == sym.ZERO and after == sym.ZERO:
             axes.append((sp, iv))
             continue
+        if before != sym.ZERO and not (before[0] == "num" and float(before[1]).is_integer() and before[1] > 0):
+            # a width in front that is not a constant: the old entry of position i is read at i − width; the array is kept as
+            # it was (under its own position variables) and read at computed positions when the result is evaluated
+            from . import symeval
+            snap = Arr(a.axes, a.elem, a.kind).renamed()
+            symeval.ARRAYS[snap.uid] = snap
+            idxs, ins, new_axes = [], sym.TRUE, []
+            for (sp2, iv2), (bf, af) in zip(a.axes, widths):
+                pos_ = sym.IV(iv2)
+                idxs.append(sym.sub(pos_, bf) if bf != sym.ZERO else pos_)
+                if bf != sym.ZERO or af != sym.ZERO:
+                    ins = sym.And(ins, sym.Cmp(">=", pos_, bf), sym.Cmp("<", pos_, sym.add(sp2.size, bf)))
+                    new_axes.append((rng(sym.add(sym.add(sp2.size, bf), af)), iv2))
+                else:
+                    new_axes.append((sp2, iv2))
+            return Arr(new_axes, sym.ITE(ins, sym.At(snap.uid, snap.elem, tuple(idxs)), fill), "nd")
         if before != sym.ZERO:
-            if not (before[0] == "num" and float(before[1]).is_integer() and before[1] > 0):
-                return I.unknown("np.pad-before", n)
             k = int(before[1])
             e = sym.subst_ivar(e, iv, (iv, -k))
             inside = sym.And(inside, sym.Cmp(">=", sym.IV(iv), sym.Num(k)), sym.Cmp("<", sym.IV(iv), sym.add(sp.size, sym.Num(k))))
